@@ -61,7 +61,7 @@ class EnsembleSampler(MarkovChain):
             ).copy()
             self.n_walkers, self.n_parameters = starting_positions.shape
             self.walker_probs = array(
-                [self.posterior(t) for t in self.walker_positions]
+                [self.posterior(t) for t in self.walker_positions], dtype=float
             )
 
             # storage for diagnostic information
